@@ -221,9 +221,29 @@ def fn_sequences(fn, role, region=None, start=0):
     return seqs, opaque
 
 
+PRIM_EXPANSION = {
+    # composite primitives of the DataInput/DataOutput traits, as their default methods define them
+    "length_prefixed_bytes": ("var_int", "bytes"),
+    "length_prefixed_string": ("var_int", "bytes"),
+    "string": ("bytes",),
+    "vec": ("bytes",),
+}
+
+
+def expand(seq):
+    out = []
+    for e in seq:
+        if e[0] == "prim" and e[1] in PRIM_EXPANSION:
+            out.extend(("prim", k) for k in PRIM_EXPANSION[e[1]])
+        else:
+            out.append(e)
+    return tuple(out)
+
+
 def strong(seq):
     """projection used where the two sides use different idioms for single bytes / payloads"""
-    return tuple(e for e in seq if e[0] in ("bits", "prim", "ser") or (e[0] == "int" and e[1] >= 2))
+    return tuple(e for e in expand(seq)
+                 if e[0] in ("bits", "ser") or (e[0] == "prim" and e[1] != "bytes") or (e[0] == "int" and e[1] >= 2))
 
 
 def is_prefix(a, b):
